@@ -12,6 +12,7 @@ driver for the import model (engine `imports`), over the generated graph.
   present               → names of all present modules of the graph (ioflo and others), sorted
   ns <dotted name>      → sorted names bound in that module (`-` when none / absent)
   stale <dotted name>   → `true` | `false`   region predicate of known finding D01c
+  val <module> <ident>  → `unbound` | `obj` | `mod <module>`   what the identifier is bound to in the module
   nodes                 → number of nodes, size of the property's domain
 -/
 namespace Ioflo.Drv.Imports
@@ -38,17 +39,26 @@ def excName : Exc → String
 def fnv1a (s : String) : UInt64 :=
   s.toUTF8.foldl (fun h b => (h ^^^ b.toUInt64) * 1099511628211) 14695981039346656037
 
-def sortedNames (ns : Ns) : List String :=
-  ((ns.map (fun p => identName p.1)).toArray.qsort (· < ·)).toList
+/-- names bound in module `m`, sorted -/
+def sortedNames (s : State) (m : Mod) : List String :=
+  let ids := (List.range Gen.identNames.size).filter (fun n => s.bound g m n)
+  ((ids.map identName).toArray.qsort (· < ·)).toList
 
-def showNs (ns : Ns) : String :=
-  let l := sortedNames ns
+def showNs (s : State) (m : Mod) : String :=
+  let l := sortedNames s m
   toString l.length ++ ":" ++ natToHex 16 (fnv1a (",".intercalate l)).toNat
 
+def isIoflo (m : Mod) : Bool :=
+  match g.node? m with
+  | some nd => nd.ioflo
+  | none => false
+
+def byName (ids : List Mod) : List Mod :=
+  (ids.toArray.qsort (fun a b => modName a < modName b)).toList
+
 def stateLine (s : State) : String :=
-  let ids := (List.range g.nodes.length).filter (fun m =>
-    s.present m && (match g.node? m with | some nd => nd.ioflo | none => false))
-  let parts := ids.map (fun m => modName m ++ ":" ++ showNs (s.get m).ns)
+  let ids := byName ((List.range g.nNodes).filter (fun m => s.isPresent m && isIoflo m))
+  let parts := ids.map (fun m => modName m ++ ":" ++ showNs s m)
   if parts.isEmpty then "-" else " ".intercalate parts
 
 def step (s : State) (line : String) : State × String :=
@@ -63,19 +73,27 @@ def step (s : State) (line : String) : State × String :=
       | (s', some err) => (s', "ERR " ++ excName err.exc ++ " " ++ modName err.mod ++ " " ++ toString err.line)
   | ["state"] => (s, stateLine s)
   | ["present"] =>
-    let ids := (List.range g.nodes.length).filter (fun m => s.present m)
+    let ids := byName ((List.range g.nNodes).filter (fun m => s.isPresent m))
     (s, if ids.isEmpty then "-" else " ".intercalate (ids.map modName))
   | ["ns", name] =>
     match modId? name with
     | none => (s, "bad-op")
     | some m =>
-      let l := sortedNames (s.get m).ns
+      let l := sortedNames s m
       (s, if l.isEmpty then "-" else " ".intercalate l)
   | ["stale", name] =>
     match modId? name with
     | none => (s, "bad-op")
     | some m => (s, toString (staleFrom g m))
-  | ["nodes"] => (s, toString g.nodes.length ++ " " ++ toString g.domain.length)
+  | ["nodes"] => (s, toString g.nNodes ++ " " ++ toString g.domain.length)
+  | ["val", name, ident] =>
+    match modId? name, Gen.identNames.findIdx? (· == ident) with
+    | some m, some n =>
+      match s.val g m n with
+      | none => (s, "unbound")
+      | some .obj => (s, "obj")
+      | some (.mod t) => (s, "mod " ++ modName t)
+    | _, _ => (s, "bad-op")
   | _ => (s, "bad-op")
 
 end Ioflo.Drv.Imports
